@@ -104,7 +104,7 @@ NCHUNK = 32
 
 def units(tier, seed):
   return ([('paths', k) for k in range(NCHUNK)] +
-          [('flags', k) for k in range(16)] + [('callexpr',)])
+          [('flags', k) for k in range(16)] + [('callexpr',), ('legacy',)])
 
 
 _KK = None
@@ -549,9 +549,128 @@ def run_callexpr(res):
   res.sample({'call_expression': "f('a,b', k0=[1, 2])"})
 
 
+# ------------------------------------------------------------ legacy flag API
+LEGACY_OVERRIDES = [
+    ('layers=[1, 2]', lambda r: setattr(r, 'layers', [1, 2])),
+    ('layers[0]=5', lambda r: r.layers.__setitem__(0, 5)),
+    ('layers=[7, 8]', lambda r: setattr(r, 'layers', [7, 8])),
+    ('enc.x=1', lambda r: setattr(r.enc, 'x', 1)),
+    ('dec.x=2', lambda r: setattr(r.dec, 'x', 2)),
+    ('enc.x=3', lambda r: setattr(r.enc, 'x', 3)),
+    ('enc.y=[0]', lambda r: setattr(r.enc, 'y', [0])),
+    ('dec.y[0]=9', lambda r: r.dec.y.__setitem__(0, 9)),
+]
+LEGACY_TAG_VALUES = ['[16, 32]', "{'k': [1]}", '5', "'s'"]
+LEGACY_AFTER_TAG = [
+    ('x[0]=7', lambda c: c.x.__setitem__(0, 7)),
+    ("x['k']=8", lambda c: c.x.__setitem__('k', 8)),
+    ('y=0', lambda c: setattr(c, 'y', 0)),
+    ('inner.x[1]=6', lambda c: c.inner.x.__setitem__(1, 6)),
+]
+
+
+def run_legacy(res, max_len):
+  """--fdl.path=value overrides are applied strictly in command-line order
+  (also when a path is repeated); --fdl_tag.T=value gives every tagged
+  parameter its own value, so a later element override sets exactly one
+  leaf."""
+  from fiddle._src.absl_flags import legacy_flags  # pylint: disable=g-import-not-at-top
+  FLAGS = absl_flags.FLAGS
+
+  def parse(argv):
+    FLAGS.unparse_flags()
+    FLAGS(['prog'] + legacy_flags.rewrite_fdl_args(argv))
+
+  def base():
+    s_ = fdl.Config(N.node_b, x=0, y=[4])
+    return fdl.Config(N.node_kw, enc=s_, dec=s_, layers=[1, 2])
+
+  try:
+    for n in range(1, max_len + 1):
+      for seq in itertools.product(range(len(LEGACY_OVERRIDES)), repeat=n):
+        texts = [LEGACY_OVERRIDES[i][0] for i in seq]
+        case = {'legacy_overrides': texts}
+        ref = base()
+        ref_out = 'ok'
+        for i in seq:
+          try:
+            LEGACY_OVERRIDES[i][1](ref)
+          except Exception:  # pylint: disable=broad-except
+            ref_out = 'raise'
+            break
+        real = base()
+        parse([f'--fdl.{t}' for t in texts])
+        res.states += 1
+        res.transitions += 1
+        res.nontrivial += 1
+        try:
+          legacy_flags.apply_overrides_to(real)
+          out = 'ok'
+        except Exception:  # pylint: disable=broad-except
+          out = 'raise'
+        res.outcomes[f'legacy:{out}'] += 1
+        if out != ref_out:
+          res.violation('C18/legacy-overrides/outcome',
+                        f'{case}: {out} expected {ref_out}', case)
+        elif out == 'ok' and canon.canon_cfg(real) != canon.canon_cfg(ref):
+          res.violation('C18/legacy-overrides/not-applied-in-order',
+                        f'{case}: got {real!r} expected {ref!r}', case)
+    # tags, then element overrides
+    def tagged():
+      inner = fdl.Config(N.node_b, x=1)
+      c = fdl.Config(N.node, x=1, y=2)
+      c = fdl.Config(N.node_kw, x=1, y=2, inner=inner)
+      fdl.add_tag(c, 'x', N.TagC)
+      fdl.add_tag(c, 'y', N.TagC)
+      fdl.add_tag(inner, 'x', N.TagC)
+      fdl.add_tag(inner, 'y', N.TagA)
+      return c
+    for tv in LEGACY_TAG_VALUES:
+      for k in range(0, 3):
+        for seq in itertools.product(range(len(LEGACY_AFTER_TAG)), repeat=k):
+          texts = [LEGACY_AFTER_TAG[i][0] for i in seq]
+          case = {'legacy_tag_value': tv, 'then': texts}
+          ref = tagged()
+          for node, name in ((ref, 'x'), (ref, 'y'), (ref.inner, 'x')):
+            setattr(node, name, ast.literal_eval(tv))
+          ref_out = 'ok'
+          for i in seq:
+            try:
+              LEGACY_AFTER_TAG[i][1](ref)
+            except Exception:  # pylint: disable=broad-except
+              ref_out = 'raise'
+              break
+          real = tagged()
+          parse([f'--fdl_tag.{N.TagC.name}={tv}'] +
+                [f'--fdl.{t}' for t in texts])
+          res.states += 1
+          res.transitions += 1
+          res.nontrivial += 1
+          try:
+            legacy_flags.set_tags(real)
+            legacy_flags.apply_overrides_to(real)
+            out = 'ok'
+          except Exception:  # pylint: disable=broad-except
+            out = 'raise'
+          res.outcomes[f'legacy-tags:{out}'] += 1
+          if out != ref_out:
+            res.violation('C18/legacy-tags/outcome',
+                          f'{case}: {out} expected {ref_out}', case)
+          elif out == 'ok' and canon.canon_cfg(real) != canon.canon_cfg(ref):
+            res.violation('C18/legacy-tags/override-changed-something-else',
+                          f'{case}: got {real!r} expected {ref!r}', case)
+  finally:
+    FLAGS.unparse_flags()
+    FLAGS(['prog'])
+
+
 def run_unit(unit, tier, seed):
   b = bounds(tier)
   res = core.Result()
+  if unit[0] == 'legacy':
+    run_legacy(res, 3 if tier == 'quick' else 4)
+    res.sample({'legacy_override_alphabet': [t for t, _ in LEGACY_OVERRIDES]})
+    return res
   if unit[0] == 'paths':
     for idx, shape in enumerate(path_cases(b)):
       if idx % NCHUNK != unit[1]:
@@ -582,7 +701,10 @@ def replay(case):
   res = core.Result()
   if _KK is None:
     _KK = kinds()
-  if 'shape' in case:
+  if 'legacy_overrides' in case or 'legacy_tag_value' in case:
+    run_legacy(res, 3)
+    res.violations = [v for v in res.violations if v['case'] == case]
+  elif 'shape' in case:
     check_paths(_shape(case['shape']), res, case.get('leaf'))
   elif 'directives' in case:
     print('replay the directive sequence by running the flags unit; case:',
